@@ -353,6 +353,14 @@ def main_check(pid, tier, seed, write_evidence=True):
                 if violations:
                     break
         stats["searched"] = searched
+        if tier == "thorough":
+            for comp, _, _ in spec["components"]:
+                mod = comp_module(comp)
+                if hasattr(mod, "thorough_extras"):
+                    try:
+                        stats.setdefault("extras", {}).update(mod.thorough_extras(pid))
+                    except Exception as e:
+                        stats.setdefault("extras", {})[comp] = "extras failed: %s" % e
         if cov is not None:
             lc = {}
             files = sorted({path for comp, _, _ in spec["components"] for path, _ in anchors.ANCHORS.get(comp, []) if path.endswith(".py")})
@@ -432,6 +440,7 @@ def main_check(pid, tier, seed, write_evidence=True):
                 "components": stats["components"],
                 "branch_tags": stats["tags"],
                 "source_drift": stats.get("drift", {}),
+                "thorough_extras": stats.get("extras", {}),
                 "anchored_line_coverage": stats.get("line_coverage", {}),
                 "failing_input_search_records": stats.get("searched", 0),
                 "known_findings_seen": {k: c for k, (_, c) in known_hits.items()},
